@@ -420,13 +420,28 @@ func TestCheck(t *testing.T) {
 	k := evid.NewKind(rec, "sign", judge)
 	rec.Corpus(t)
 	maxData := 70000
+	kpar := evid.NewKind(rec, "concurrent", evid.ParallelJudge(judge))
+	var pool []Case
 	rec.Rapid(t, "sign", rec.N(1500, 12000), func(rt *rapid.T) {
 		c := Case{Tx: genTx(rt, maxData), Key: genKey(rt), ChainID: genChainID(rt), Mode: rapid.SampledFrom(modes).Draw(rt, "mode")}
 		if rapid.IntRange(0, 3).Draw(rt, "grind") == 0 {
 			grind(&c, 700)
 		}
 		nt, cl := classify(c)
+		if len(pool) < 72 && len(c.Tx.DataBytes()) >= 1024 {
+			pool = append(pool, c)
+		}
 		k.Check(rt, c, nt, cl...)
+	})
+	// the same cases from many goroutines at once: verdicts must not depend on concurrent callers
+	t.Run("concurrent", func(t *testing.T) {
+		for lo := 0; lo+8 <= len(pool); lo += 24 {
+			hi := lo + 24
+			if hi > len(pool) {
+				hi = len(pool)
+			}
+			kpar.Must(t, evid.Batch[Case]{Cases: pool[lo:hi], Workers: 8, Rounds: 3}, true, "concurrent-batch")
+		}
 	})
 	// the exact data-length boundaries named in the quantifier, every mode
 	t.Run("data-boundaries", func(t *testing.T) {
@@ -449,6 +464,7 @@ func TestCheck(t *testing.T) {
 func TestReplay(t *testing.T) {
 	rec := evid.Start("C01", rule)
 	evid.NewKind(rec, "sign", judge)
+	evid.NewKind(rec, "concurrent", evid.ParallelJudge(judge))
 	rec.Replay(t)
 }
 
